@@ -78,7 +78,7 @@ func genCell(t *rapid.T, profile int) string {
 	return sb.String()
 }
 
-var csvNames = []string{"a", "b", "c", "d", "e", "f", "col 1", "ä", "x,y", "q\"", "A", "long name with blanks", "n\nl", "''", "\"\"", "\ufeffbom", "null", " pad ", "'ab\"", "\"x'", "'\""}
+var csvNames = []string{"a", "b", "c", "d", "e", "f", "col 1", "ä", "x,y", "q\"", "A", "long name with blanks", "n\nl", "''", "\"\"", "\ufeffbom", "null", " pad ", "'ab\"", "\"x'", "'\"", " ", "  ", "\t"}
 
 type csvCase struct {
 	doc      hx.CSVDoc
